@@ -33,7 +33,7 @@ func run(c *vf.Ctx) {
 	if err := rk.SelfTest(); err != nil {
 		c.Fatalf("%v", err)
 	}
-	c.Rule("credentials: choice tree over version {2,1,0} x modulus length {256,1,128,512} x exponent {65537,3,2^32-1} x prime lengths {(0,0),(64,64),(128,128),(64,0),(0,128)} x 10 device GUIDs x 10 tick values each for last-logon and creation (never 0) x 9 usages x 4 sources x 9 CUSTOM_KEY_INFORMATION values (the constructor's and one per legal truncation point 2,3,4,5,9,19,20,32 bytes), " +
+	c.Rule("credentials: choice tree over version {2,1,0} x modulus length {256,1,128,512} x exponent {65537,3,2^32-1,0x10000,0x12340000,0x100} x prime lengths {(0,0),(64,64),(128,128),(64,0),(0,128)} x 10 device GUIDs x 10 tick values each for last-logon and creation (never 0) x 9 usages x 4 sources x 9 CUSTOM_KEY_INFORMATION values (the constructor's and one per legal truncation point 2,3,4,5,9,19,20,32 bytes), " +
 		"explored with mc/explore to 2 (thorough 3) deviations from the default, plus the full product of the four key-shape parameters; identifier = the version's own encoding of SHA-256(key material). " +
 		"Faults: for every blob, every single-bit flip (exhaustive per blob); flips after the KeyHash entry are the obligation. DN-Binary: all strings of length <=4 (thorough 5) over {a = , : space é % \\}, DNs containing LF/CR/TAB/NUL/CRLF/U+2028 and realistic DNs x binary lengths {0,1,2,3,255,256}. " +
 		"distinct = distinct serialised blobs / DN-Binary inputs reaching the comparison; flips are counted in tampered_blobs")
@@ -55,7 +55,7 @@ type primes struct{ p1, p2 int }
 var (
 	versions = []uint32{key.KeyCredentialVersion_2, key.KeyCredentialVersion_1, key.KeyCredentialVersion_0}
 	modLens  = []int{256, 1, 128, 512}
-	exps     = []uint32{65537, 3, 1<<32 - 1}
+	exps     = []uint32{65537, 3, 1<<32 - 1, 0x10000, 0x12340000, 0x100} // the last three end in zero bytes: a fixed-width field has no 'insignificant' end
 	primeLs  = []primes{{0, 0}, {64, 64}, {128, 128}, {64, 0}, {0, 128}}
 	guids    = []guid.GUID{
 		{A: 0x01020304, B: 0x0506, C: 0x0708, D: 0x090a, E: 0x0b0c0d0e0f10},
